@@ -26,8 +26,10 @@ pub enum Op {
     DropBrowseRx,
     /// accept_unsolicited(true): records are cached although no search asked for them
     AcceptUnsolicited,
+    /// PTR and TXT of an instance, no SRV
+    DeliverPtrTxt,
 }
-pub const OPS: [Op; 16] = [
+pub const OPS: [Op; 17] = [
     Op::Browse,
     Op::BrowseDropOld,
     Op::BrowseCache,
@@ -44,6 +46,7 @@ pub const OPS: [Op; 16] = [
     Op::Idle3s,
     Op::DropBrowseRx,
     Op::AcceptUnsolicited,
+    Op::DeliverPtrTxt,
 ];
 
 const TY: &str = "_t._tcp.local.";
@@ -306,7 +309,7 @@ impl Scenario for Scn {
         "search-start-stop-sequences".into()
     }
     fn rule(&self) -> String {
-        "all sequences over {browse, browse again dropping the old receiver, dropping the receiver without a new browse, accept_unsolicited(true), browse_cache, stop_browse, resolve_hostname Foo.local. (no timeout / 1500 ms, mixed or lower case), stop_resolve_hostname in either case, shutdown, deliver PTR / full record set / address record, idle 3 s}, then silence for the horizon; states de-duplicated on daemon dump + channel bookkeeping".into()
+        "all sequences over {browse, browse again dropping the old receiver, dropping the receiver without a new browse, accept_unsolicited(true), browse_cache, stop_browse, resolve_hostname Foo.local. (no timeout / 1500 ms, mixed or lower case), stop_resolve_hostname in either case, shutdown, deliver PTR / PTR+TXT / full record set / address record, idle 3 s}, then silence for the horizon; states de-duplicated on daemon dump + channel bookkeeping".into()
     }
     fn setup(&self) -> Run {
         let mut w = World::one(lay_v4());
@@ -428,6 +431,9 @@ impl Scenario for Scn {
             }
             Op::DeliverFull => {
                 run.w.deliver(0, IF0, PEER0, build(&response(inst.all(120))));
+            }
+            Op::DeliverPtrTxt => {
+                run.w.deliver(0, IF0, PEER0, build(&response(vec![inst.ptr(120), inst.txt(120)])));
             }
             Op::DeliverAddr => {
                 run.w.deliver(0, IF0, PEER0, build(&response(vec![a(&n("FOO.local"), [10, 0, 0, 7], 120)])));
